@@ -131,6 +131,14 @@ pub fn c04(r: &mut Report) {
         corpus: false,
     };
     run_plan(r, &plan);
+    // poisoning clause: panics caught inside the holder, every schedule of small scenario programs
+    let scens = super::poison::scenarios();
+    let cap = if r.quick() { 3_000 } else { 60_000 };
+    let accs = oracle::parallel(scens.len(), oracle::workers(), |i, acc: &mut Acc| super::poison::check(scens[i], cap, acc));
+    for a in accs {
+        a.merge_into(r);
+    }
+    r.rule.push_str("; poisoning: scenario programs in which 1-2 tasks panic (caught inside the task) while holding a Mutex / RwLock write / RwLock read guard and 1-2 observers lock, try-lock, read and write around them, every schedule enumerated: an acquisition reports Poisoned () exactly when a panicking exclusive holder preceded it since the last clear_poison, a panicking reader never poisons, nobody deadlocks");
 }
 
 pub fn c05(r: &mut Report) {
